@@ -6,9 +6,33 @@ package verifsim
 
 import (
 	"fmt"
+	"os"
 	"sort"
 	"time"
 )
+
+// EnvHook, when non-nil, is the process environment of the library: every
+// os.Getenv and os.LookupEnv inside a function of package cose is routed here
+// by the instrumenter.  (The pinned go-cose reads no environment variable.)
+var EnvHook func(name string) (string, bool)
+
+// EnvReads counts the reads of the environment by package cose.
+var EnvReads uint64
+
+// LookupEnv replaces os.LookupEnv inside package cose.
+func LookupEnv(name string) (string, bool) {
+	EnvReads++
+	if h := EnvHook; h != nil {
+		return h(name)
+	}
+	return os.LookupEnv(name)
+}
+
+// Getenv replaces os.Getenv inside package cose.
+func Getenv(name string) string {
+	v, _ := LookupEnv(name)
+	return v
+}
 
 // NowHook, when non-nil, is the wall clock of the library: every time.Now,
 // time.Since and time.Until inside package cose is routed here by the
